@@ -70,7 +70,8 @@ ReqOf(ln) == [cmd |-> ln.q.cmd, name |-> ln.q.name, lname |-> ln.q.lname, hasnam
               childpid |-> ln.q.childpid, nb |-> IF ln.q.cmd = "set" THEN ln.q.setnp ELSE ln.q.nb,
               G |-> ln.q.Gp, nostop |-> ln.q.nostop, graceful |-> ln.q.graceful,
               sequential |-> ln.q.sequential, raw |-> ln.q.raw, start |-> ln.q.start, addnp |-> ln.q.addnp,
-              addG |-> ln.q.addGp, addW |-> ln.q.addWt, addsing |-> ln.q.addsing, nopts |-> ln.q.nopts, pattern |-> ln.q.pattern]
+              addG |-> ln.q.addGp, addW |-> ln.q.addWt, addsing |-> ln.q.addsing, nopts |-> ln.q.nopts, pattern |-> ln.q.pattern,
+              opts |-> ln.q.opts]
 
 Tk(ms) == (ms + 50) \div 100
 
